@@ -942,8 +942,34 @@ pub fn eval_weak(req: &str, reg_s: &str, rv: u32, newest: bool) -> Case {
     let reg: crate::solver::Registry<VS> = crate::solver::Registry::from_text(reg_s);
     let prov = WeakProvider { entries: reg.entries.clone(), newest, calls: Default::default() };
     let prop = crate::eval::CURRENT_PROP.with(|p| p.borrow().clone());
+    // the store snapshot of the cfg-guarded hook (packages print by name): every recorded incompatibility is
+    // checked against all solutions of the registry, as for the String runs (C06)
+    let snaps: std::rc::Rc<std::cell::RefCell<Option<String>>> = Default::default();
+    let snaps2 = snaps.clone();
+    pubgrub::verif::set_observer(Some(Box::new(move |s: &str| {
+        if s.starts_with("store") {
+            *snaps2.borrow_mut() = Some(s.replace('\n', " ## "));
+        }
+    })));
     let res = crate::solver::watched(req.to_string(), || std::panic::catch_unwind(std::panic::AssertUnwindSafe(|| resolve(&prov, WeakPkg("root".into()), rv))));
+    pubgrub::verif::set_observer(None);
     let mut fail = None;
+    if matches!(prop.as_str(), "C06" | "C02" | "C17") {
+        if let Some(entries) = snaps.borrow().as_ref().and_then(|s| crate::solver::parse_store::<VS>(s)) {
+            let sels = crate::solver::all_selections(&reg);
+            if sels.len() <= 4_000 {
+                let solutions: Vec<&crate::solver::Sel> = sels.iter().filter(|s| crate::solver::is_solution(&reg, "root", rv, s).is_ok()).collect();
+                'outer: for e in &entries {
+                    for s in &solutions {
+                        if e.terms.iter().all(|(p, t)| crate::solver::term_true(t, s.get(p).copied())) {
+                            fail = Some(format!("with package names whose Hash collides the solver recorded incompatibility I{} {} whose terms are all true in the solution {:?}", e.id, e.kind, s));
+                            break 'outer;
+                        }
+                    }
+                }
+            }
+        }
+    }
     let imp = match res {
         Err(e) => {
             let msg = e.downcast_ref::<String>().cloned().or_else(|| e.downcast_ref::<&str>().map(|s| s.to_string())).unwrap_or("?".into());
